@@ -20,8 +20,8 @@
    only where the correct clause fails, and only if the logged state is exactly what the deviation predicts. *)
 EXTENDS TraceBase, LedgerOps
 CONSTANTS AllowedDev, Check
-VARIABLES c, cur
-mvars == <<c, cur, l>>
+VARIABLES c, cur, split     \* split: the validator refused a block of this behaviour under a listed deviation
+mvars == <<c, cur, split, l>>
 
 RECURSIVE GasOK(_, _)
 GasOK(q, i) == IF i > Len(q) THEN TRUE
@@ -59,24 +59,32 @@ Judge(e) == /\ e.inexact = <<>>
 TReset == /\ Ev("reset") /\ E.inexact = <<>>
           /\ c' = [V |-> E.V, D |-> E.D, mindep |-> E.mindep, income |-> E.income, pool |-> E.pool, zero |-> E.zero,
                    issuer |-> E.issuer, rev |-> ToSet(E.rev), sink |-> ToSet(E.sink), burn |-> ToSet(E.burn), back |-> ToSet(E.back)]
-          /\ cur' = E.st
+          /\ cur' = E.st /\ split' = FALSE
           /\ NonNegBal(E.st) /\ VotesOK(c', E.st) /\ SupplyOK(E.st)
 TxEvents == {"Transfer", "Vote", "Register", "TopUp", "Unregister", "Issue", "Replenish", "AssetTransfer", "Freeze", "Box"}
 TTx == /\ \E n \in TxEvents : Ev(n)
-       /\ Judge(E) /\ UNCHANGED <<c, cur>>
-TEnd == /\ Ev("EndBlock") /\ E.vok          \* the block the real miner sealed is accepted and executed by the real validator
+       /\ Judge(E) /\ UNCHANGED <<c, cur, split>>
+\* Known defect, third face: a DISCARDED negative transfer to an account that does not hold the asset leaves a trace in
+\* the miner's account manager (the equity change log is pushed before the negative value fails to encode); the block
+\* the miner then seals carries change logs the validator cannot reproduce and is refused ("changeLogs is incorrect").
+NegDiscarded(q) == \E i \in 1..Len(q) : q[i].k = "axfer" /\ q[i].amt < 0 /\ ~q[i].inc
+TEnd == /\ Ev("EndBlock")
+        /\ \/ E.vok /\ split' = split      \* the block the real miner sealed is accepted and executed by the real validator
+           \/ /\ ~E.vok /\ split /\ split' = split              \* its parent was refused before
+           \/ /\ ~E.vok /\ ~split /\ Check = "C12" /\ Has("Dev_NegativeAssetTransferSplitsMinerValidator") /\ NegDiscarded(E.txs)
+              /\ UseDev("Dev_NegativeAssetTransferSplitsMinerValidator") /\ split' = TRUE
         /\ Judge(E) /\ cur' = E.post /\ UNCHANGED c
 \* Known defect, second face: a negative transferAmount to an account that does not hold the asset yet makes the
 \* processor PANIC while mining (the negative equity cannot be RLP-encoded, the revert then trips over the first-equity
 \* change log).  TraceBase.Ev never consumes a panic line; this action does, only for exactly that input and only if listed.
 TNegPanic == /\ l <= Len(Trace) /\ Trace[l].ev = "AssetTransfer" /\ "panic" \in DOMAIN Trace[l] /\ l' = l + 1
              /\ Check = "C12" /\ Has("Dev_NegativeAssetTransferPanics") /\ Trace[l].a[3] < 0
-             /\ UseDev("Dev_NegativeAssetTransferPanics") /\ UNCHANGED <<c, cur>>
+             /\ UseDev("Dev_NegativeAssetTransferPanics") /\ UNCHANGED <<c, cur, split>>
 \* Known defect of the change journal (C07 Dev_UndoFirstEquityPanics) reached through a transaction: an asset transfer to a
 \* contract whose code fails, when the contract does not hold that asset yet, makes the processor PANIC in the revert.
 TRevPanic == /\ l <= Len(Trace) /\ Trace[l].ev = "AssetTransfer" /\ "panic" \in DOMAIN Trace[l] /\ l' = l + 1
              /\ Check = "C12" /\ Has("Dev_AssetToFailingContractPanics") /\ Trace[l].a[2] \in c.rev /\ Trace[l].a[3] >= 0
-             /\ UseDev("Dev_AssetToFailingContractPanics") /\ UNCHANGED <<c, cur>>
+             /\ UseDev("Dev_AssetToFailingContractPanics") /\ UNCHANGED <<c, cur, split>>
 TraceNext == TReset \/ TTx \/ TEnd \/ TNegPanic \/ TRevPanic
-TraceSpec == l = 1 /\ c = <<>> /\ cur = <<>> /\ [][TraceNext]_mvars
+TraceSpec == l = 1 /\ c = <<>> /\ cur = <<>> /\ split = FALSE /\ [][TraceNext]_mvars
 ====
